@@ -159,7 +159,9 @@ ForwardedOnce == pc \in {"forward", "dial"} => hits = 1
 OutcomeSound == pc \in Terminal => pc \in Outcomes(rules, req)
 \* a documented configuration with plain addresses and good credentials is served
 NoSpuriousDeny == (MustAdmit(rules, req) /\ AuthOK(req)) => pc \notin {"deny403", "deny401", "close"}
-SomeOutcome == phase = "gate" => Outcomes(rules, req) # {}
+\* the clauses below speak about the operators only; they are evaluated once per case
+AtCase == phase = "gate" /\ pc = "lookup"
+SomeOutcome == AtCase => Outcomes(rules, req) # {}
 
 \* the clauses of the statement about lists, checked on the operators
 InsertAt(list, i, x) == SubSeq(list, 1, i - 1) \o <<x>> \o SubSeq(list, i, Len(list))
@@ -167,7 +169,7 @@ InsertAt(list, i, x) == SubSeq(list, 1, i - 1) \o <<x>> \o SubSeq(list, i, Len(l
 \* (or the other option, making the configuration an unsupported one) never turns a denied
 \* request into one that may be admitted, and never creates an obligation to admit
 NeverWidens ==
-    phase = "gate" =>
+    AtCase =>
       \A x \in Items \ WFItems :
         /\ \A i \in 1..(Len(rules.allow) + 1) :
              LET r2 == [rules EXCEPT !.allow = InsertAt(rules.allow, i, x)] IN
@@ -178,15 +180,15 @@ NeverWidens ==
              /\ MayAdmit(r2, req) => MayAdmit(rules, req)
              /\ ~MustAdmit(r2, req)
 AllowOnlyInside ==
-    (phase = "gate" /\ rules.allow # <<>> /\ MayAdmit(rules, req)) =>
+    (AtCase /\ rules.allow # <<>> /\ MayAdmit(rules, req)) =>
         \A a \in Checked(req) : \E i \in DOMAIN rules.allow :
             rules.allow[i] \in WFItems /\ <<a, rules.allow[i]>> \in Member
 DenyRejectsInside ==
-    (phase = "gate" /\ rules.deny # <<>>
+    (AtCase /\ rules.deny # <<>>
        /\ \E a \in Checked(req) : \E i \in DOMAIN rules.deny : <<a, rules.deny[i]>> \in Member)
     => ~MayAdmit(rules, req)
 UnknownSchemeRejects ==
-    (phase = "gate" /\ req.proto = "http" /\ req.scheme # "" /\ req.scheme \notin KnownSchemes) => ~AuthOK(req)
+    (AtCase /\ req.proto = "http" /\ req.scheme # "" /\ req.scheme \notin KnownSchemes) => ~AuthOK(req)
 \* order independence of a list's well-formed meaning is NOT claimed for the code; the
 \* specification's bound only depends on the set of well-formed blocks
 =============================================================================
